@@ -4,6 +4,7 @@ the time range and its sufficiency for range selectors; the hint fields are comp
 real code by the `hints` oracle).
 -/
 import PromqlVerif.Sem
+import PromqlVerif.Proofs.TrimSound
 namespace PromqlVerif.C16
 open PromqlVerif Val
 
@@ -69,5 +70,55 @@ theorem window_local (lo hi mint maxt : Int) (ss : List (Sample V)) (h1 : lo ≤
           · right; intro hb; exact hout ⟨ha, hb⟩
           · left; exact ha
         simp [this]
+
+/-! ### sufficiency for whole plans -/
+
+/-- **the hinted ranges are sufficient, for whole plans**: let the storage drop every sample
+outside `[lo, hi]`. If that interval contains what every selector of the expression reads at the
+times it is evaluated (`Cov`: the lookback interval of an instant selector, the window of a range
+selector, at every step of the window - or at its start only below a step-invariant wrapper; what
+`timestamp()` reads), then at every step of the window the value of the expression - any nesting of
+functions, aggregations with parameters, binary operators, `timestamp()` - is what it is over the
+full storage. (Series sorted by time, as a storage delivers them.) -/
+theorem hinted_range_suffices_for_plans (lo hi stop : Int) (c : Ctx V) (hs : SortedSt c) (e : Expr V)
+    (hcov : Cov lo hi stop c true e) (t : Int) (ht : c.start ≤ t ∧ t ≤ stop) :
+    eval (trimCtx lo hi c) t e = eval c t e :=
+  trim_sound lo hi stop c hs e true hcov t (by simpa [Times] using ht)
+
+/-- an interval that contains the hinted range of an unpinned instant selector covers it ... -/
+theorem cov_of_hints_vsel (lo hi stop : Int) (c : Ctx V) (s : VSel) (hat : s.atTs = none)
+    (h1 : lo ≤ (selectRange c.start stop c.lookback s none).1) (h2 : (selectRange c.start stop c.lookback s none).2 ≤ hi) :
+    Cov lo hi stop c true (.vsel s) := by
+  rw [Cov]
+  intro t ht
+  simp only [Times, if_true] at ht
+  have := lookback_interval_within_hints c.start stop s t c.lookback ht hat
+  simp only at this
+  omega
+
+/-- ... and so for an unpinned range selector below its function ... -/
+theorem cov_of_hints_msel (lo hi stop : Int) (c : Ctx V) (s : VSel) (r : Int) (hat : s.atTs = none)
+    (h1 : lo ≤ (selectRange c.start stop c.lookback s (some r)).1)
+    (h2 : (selectRange c.start stop c.lookback s (some r)).2 ≤ hi) :
+    Cov lo hi stop c true (.msel s r) := by
+  rw [Cov]
+  intro t ht
+  simp only [Times, if_true] at ht
+  have := range_window_within_hints c.start stop s r t ht hat c.lookback
+  simp only at this
+  omega
+
+/-- ... and for an `@`-pinned range selector below a step-invariant wrapper -/
+theorem cov_of_hints_pinned_msel (lo hi stop : Int) (c : Ctx V) (s : VSel) (r ts : Int) (hat : s.atTs = some ts)
+    (h1 : lo ≤ (selectRange c.start stop c.lookback s (some r)).1)
+    (h2 : (selectRange c.start stop c.lookback s (some r)).2 ≤ hi) :
+    Cov lo hi stop c false (.msel s r) := by
+  rw [Cov]
+  intro t ht
+  simp only [Times, Bool.false_eq_true, if_false] at ht
+  subst ht
+  have := pinned_range_window_within_hints c.start stop s r ts hat c.lookback
+  simp only at this
+  omega
 
 end PromqlVerif.C16
